@@ -25,6 +25,7 @@ func init() {
 			"(R3) every Conflict literal has Root = the handler's path and both change lists provably non-empty on that path: a one-element literal, a list guarded len>0, or the side's ancestor diff on a path where the opposite side's diff is empty (disagreement invariant); " +
 			"(R4) Conflict.EnsureValid rejects an empty list on either side; (R5) every change literal emitted carries Path = path. " +
 			"(R3 addition) the lists stored in a Conflict are its own storage: a literal or the result of a package-level function, never a slice handed out by a method of the reconciler (a reused scratch buffer would be overwritten by the next conflict); " +
+			"(R6, who may emit) the reconciler's four result lists are written only inside reconcile and the handlers — no later pass adds to or rewrites the plan, so R1/R2 cover every entry of it; " +
 			"Not decided: semantic non-emptiness beyond those three derivations; that Root covers all paths inside the listed changes (follows from diff's path construction, C01.R5).",
 		Assumptions: []string{"if alpha and beta disagree at a node and one side's synchronizable diff against the ancestor is empty, the other side's is not (argued in reconcile.go's comments)"},
 		Run:         runC06,
@@ -41,6 +42,32 @@ func runC06(c *eng.Ctx) {
 		if fn := c.MustFunc("R1", corePkg, h); fn != nil {
 			handlers = append(handlers, fn)
 		}
+	}
+	// R6 (who may emit): the one-emission-per-visited-path argument of R1/R2
+	// covers the plan only if nothing else adds to it — every write of the
+	// reconciler's result lists sits in reconcile or one of the handlers (a pass
+	// that edits the lists afterwards can pair a change with a conflict at the
+	// same path).
+	allowed := map[*ssa.Function]bool{rec: true}
+	for _, h := range handlers {
+		for _, f := range eng.WithClosures(h) {
+			allowed[f] = true
+		}
+	}
+	nEmit := 0
+	for _, list := range []string{"ancestorChanges", "alphaChanges", "betaChanges", "conflicts"} {
+		fld, err := c.P.Field(corePkg, "reconciler", list)
+		if err != nil {
+			c.Problem("R6", "%v", err)
+			continue
+		}
+		for _, st := range eng.StoresToField(c.P.ModuleFuncs(), fld) {
+			nEmit++
+			c.Check("R6", "emitter:"+list+"@"+eng.FuncName(st.Fn), st.Store.Pos(), allowed[st.Fn], "the plan's lists are written only by reconcile and the disagreement handlers", eng.FuncName(st.Fn))
+		}
+	}
+	if nEmit < 8 {
+		c.Problem("R6", "expected ≥8 writes of the reconciler's result lists, found %d", nEmit)
 	}
 	// R1: no handler calls reconcile (directly or via closures).
 	for _, h := range handlers {
